@@ -352,17 +352,31 @@ def expand_plates(obj, parent=None, idx=None):
                 expand_plates(value, obj, None)
 
 
-def update_parameters(json_object, parameters) -> None:
+def update_parameters(json_object, parameters, _top=True) -> list:
     """Recursively replace tensor in json_object with tensors present in
     parameters.
+
+    A replaced parameter can contain the definition of another object
+    (``"full_like": {"id": "y", ...}``); these definitions are moved in front of
+    the element of the top-level list they were found in, so that later
+    references to them still resolve.
 
     :param dict json_object: json object
     :param parameters: list of Parameters
     :type parameters: list(Parameter)
+    :return: definitions taken out of replaced parameters and not yet re-inserted
     """
+    orphans = []
     if isinstance(json_object, list):
-        for element in json_object:
-            update_parameters(element, parameters)
+        i = 0
+        while i < len(json_object):
+            found = update_parameters(json_object[i], parameters, False)
+            if _top and len(found) > 0:
+                json_object[i:i] = found
+                i += len(found)
+            else:
+                orphans.extend(found)
+            i += 1
     elif isinstance(json_object, dict):
         if 'type' in json_object and json_object['type'] in (
             'torchtree.core.parameter.Parameter',
@@ -380,17 +394,22 @@ def update_parameters(json_object, parameters) -> None:
                         'device',
                         'requires_grad',
                     ):
-                        del json_object[key]
+                        value = json_object.pop(key)
+                        if isinstance(value, dict) and 'id' in value:
+                            # an object defined inline (full_like, zeros_like, ...)
+                            orphans.extend(update_parameters(value, parameters, False))
+                            orphans.append(value)
                 # set new tensor
                 json_object['tensor'] = parameters[json_object['id']]['tensor']
             else:
                 # a parameter that is not in the checkpoint can define other
                 # parameters inline (full_like, zeros_like, ones_like, eye_like)
                 for value in json_object.values():
-                    update_parameters(value, parameters)
+                    orphans.extend(update_parameters(value, parameters, False))
         else:
             for value in json_object.values():
-                update_parameters(value, parameters)
+                orphans.extend(update_parameters(value, parameters, False))
+    return orphans
 
 
 def print_graph(g: torch.Tensor, level: int = 0) -> None:
